@@ -300,6 +300,20 @@ pub fn native_main(tier: Tier) {
     });
     acc.count("native_growth_cap_factor_small_budgets", cap_of(64) as u64);
     acc.count("native_growth_cap_factor_large_budgets", cap_of(256) as u64);
+    // absurd budgets: building the sorter may succeed or panic (allocation refused), but it must
+    // not hand an impossible layout to the allocator (that aborts this process: a verdict)
+    for budget in [usize::MAX, usize::MAX - 7, (1usize << 63) - 15, 1usize << 63, 1usize << 62] {
+        for realloc in [false, true] {
+            let r = guarded(|| {
+                let mut b = SorterBuilder::new(Concat).chunk_creator(TrackedCreator::default());
+                b.dump_threshold(budget).allow_realloc(realloc);
+                let mut s = b.build();
+                let _ = s.insert(b"k", b"v");
+            });
+            acc.evaluations += 1;
+            acc.hist(if r.is_ok() { "absurd_budget_accepted" } else { "absurd_budget_refused_by_panic" });
+        }
+    }
     read_paths(&mut acc);
     acc.count("native_total_allocations_checked", calloc::report().total_allocs);
     if calloc::errors_total() > 0 && acc.violations.is_empty() {
